@@ -398,7 +398,13 @@ def impl_phase(ctx, tag, exe, mode_args, scope_args, trace_module, defs, consts,
         args = ["replay", mode_args[1], trace] + list(mode_args[2:])
     else:
         args = [mode_args[0], trace] + list(mode_args[1:])
-    summ, died = run_driver(ctx, exe, args + ["--"] + list(scope_args), timeout=timeout, env=env)
+        if mode_args[0] == "explore" and len(mode_args) == 1:
+            # a changed library may have an unbounded state space (e.g. a leaked reference count):
+            # never explore more than a multiple of what the model says exists
+            args.append(max(3000, 3 * (expect_states or 0)))
+    summ, died = run_driver(ctx, exe, args + ["--"] + list(scope_args), timeout=min(timeout, 400), env=env)
+    if summ.get("_rc") == 124:
+        died = True
     if died:
         sanitize_trace(trace)
     res = validate(ctx, tag, trace_module, defs, consts, trace, levels=levels, timeout=timeout)
